@@ -103,3 +103,32 @@ func (p *Prog) isAddDep(c *ssa.Call) bool {
 	f := calleeOf(&c.Call)
 	return f != nil && f == p.trackerRoles().addDep
 }
+
+// methodNamer: coq.MethodName itself, or a helper of the translator that returns coq.MethodName applied to its own
+// parameters (possibly recording the dependency on the way: methodRef(T, m)).
+func (p *Prog) methodNamer(g *ssa.Function) bool {
+	if g == nil {
+		return false
+	}
+	if fullName(g) == coqPkg+".MethodName" {
+		return true
+	}
+	if g.Pkg == nil || g.Pkg.Pkg.Path() != Mod || len(g.Blocks) == 0 || len(g.Blocks) > 3 || g.Signature.Results().Len() != 1 {
+		return false
+	}
+	ok := false
+	p.instrs(g, func(b *ssa.BasicBlock, i int, in ssa.Instruction) {
+		ret, isRet := in.(*ssa.Return)
+		if !isRet || len(ret.Results) != 1 {
+			return
+		}
+		if c, isC := ret.Results[0].(*ssa.Call); isC && calleeName(c) == coqPkg+".MethodName" && len(c.Call.Args) == 2 {
+			_, a := c.Call.Args[0].(*ssa.Parameter)
+			_, b := c.Call.Args[1].(*ssa.Parameter)
+			ok = a && b
+		}
+	})
+	return ok
+}
+
+func (p *Prog) isMethodNameCall(c *ssa.Call) bool { return p.methodNamer(calleeOf(&c.Call)) }
